@@ -516,6 +516,7 @@ func TestC09(t *testing.T) {
 
 	gen := func(t *rapid.T) c09E2E {
 		var c c09E2E
+		bigProfile := false
 		names := profAttrNames
 		n := rapid.IntRange(1, 3).Draw(t, "entities")
 		for i := 0; i < n; i++ {
@@ -571,6 +572,21 @@ func TestC09(t *testing.T) {
 					p.Attrs = append(p.Attrs, a)
 				}
 			}
+			if rapid.IntRange(0, 9).Draw(t, l+"-bigprofile") == 0 {
+				// a profile document of 70-200 KiB: an optional raw extension carrying a large blob (a logo, say), written before or
+				// after the subject rules; the rules count wherever they stand
+				blob := make([]byte, rapid.SampledFrom([]int{50000, 70000, 140000}).Draw(t, l+"-blob"))
+				for j := range blob {
+					blob[j] = byte(j*31 + i)
+				}
+				big := core.Extension{Kind: core.KCUSTOM, OID: "1.2.3.4.5.6.7", Raw: core.Bin(blob), Optional: core.BoolP(true)}
+				if rapid.Bool().Draw(t, l+"-blobwrap") {
+					big.Raw.Wrap = 76
+				}
+				p.Extensions = append(p.Extensions, big)
+				p.RevKeys = rapid.Bool().Draw(t, l+"-revkeys")
+				bigProfile = true
+			}
 			c.W.Profs = append(c.W.Profs, p)
 			if rapid.IntRange(0, 5).Draw(t, l+"-exotic") == 0 {
 				// syntax beyond plain pairs inside one comma-separated component
@@ -584,7 +600,7 @@ func TestC09(t *testing.T) {
 			}
 			c.W.Ents = append(c.W.Ents, e)
 		}
-		if !c.Exotic && rapid.IntRange(0, 3).Draw(t, "via-api") == 0 {
+		if !c.Exotic && !bigProfile && rapid.IntRange(0, 3).Draw(t, "via-api") == 0 {
 			c.ViaAPI = true
 			// only the API can express an attribute list that is present but empty
 			for i := range c.W.Profs {
